@@ -85,7 +85,7 @@ class Report:
             if key in seen_sigs and len(replay_paths) >= 3:
                 continue
             seen_sigs.add(key)
-            if len(replay_paths) >= 10:
+            if len(replay_paths) >= 25:
                 break
             replay_paths.append(self._write_replay(v))
         ev = {
